@@ -126,6 +126,8 @@ func goVal(x any) any {
 		return out
 	case "struct":
 		return struct{}{}
+	case "rawitem":
+		return cbor.RawMessage(bytesOf(v["b"]))
 	case "simple":
 		return cbor.SimpleValue(num(v["v"]))
 	case "cwt":
@@ -368,6 +370,10 @@ func projectSign(m *cose.SignMessage) J {
 	j["payload"] = payloadJ(m.Payload)
 	xs := make([]any, len(m.Signatures))
 	for i, s := range m.Signatures {
+		if s == nil {
+			xs[i] = J{"nilslot": true, "P": []any{}, "U": []any{}, "sig": []int{}}
+			continue
+		}
 		xs[i] = projectSig(s)
 	}
 	j["sigs"] = xs
